@@ -144,9 +144,14 @@ def extract(config, verbose=False):
         os.replace(files[0], out)
         shutil.rmtree(tmpout, ignore_errors=True)
         # keep the cache small: drop older fact files of this config
-        olds = sorted(glob.glob(os.path.join(CACHE, "facts", config, "*.json")), key=os.path.getmtime)
+        def _mt(x):
+            try:
+                return os.path.getmtime(x)
+            except OSError:
+                return 0
+        olds = sorted(glob.glob(os.path.join(CACHE, "facts", config, "*.json")), key=_mt)
         for o in olds[:-12]:
-            if o != out and time.time() - os.path.getmtime(o) > 900:
+            if o != out and time.time() - _mt(o) > 900:
                 try:
                     os.remove(o)
                 except OSError:
